@@ -30,7 +30,7 @@ Proof.
   assert (Hg0 : get s0 u = Some (w_inflight None a)) by (apply get_upd_actor_same; exact Hg).
   destruct m as [e|e].
   - unfold process_sys. rewrite Hg0. cbn [a_st w_inflight]. rewrite Hst.
-    destruct (e_msg e); cbn [st_ge_terminating]; intros H; inversion H; subst; reflexivity.
+    destruct (e_msg e); cbn [st_ge_terminating]; try destruct (e_snd e =? a_parent (w_inflight None a)); intros H; inversion H; subst; reflexivity.
   - unfold process_user. rewrite Hg0. cbn [a_st w_inflight]. rewrite Hst. cbn [st_ge_terminating].
     unfold abyss_user. destruct (e_msg e); try destruct (e_rcv e =? rSub); intros H; inversion H; subst; reflexivity.
 Qed.
